@@ -20,6 +20,7 @@
 From Coq Require Import ZArith List Arith String.
 From SP Require Import Design.Flat Design.Layout Design.LayoutWf Design.LayoutProofs Design.LayoutExamples.
 From SP Require Import Sample.Decode Sample.DecodeWf Sample.DecodeProofs.
+From SP Require Import Front.CreateFlat Front.CreateWf.
 Import ListNotations.
 
 (** Distinct choices never share a variable. *)
@@ -98,6 +99,39 @@ Theorem C14_decode_onehot :
           (forall k ys, In (k, ys) d -> exists f, In f (fl_act fb) /\ k = key_of fb f).
 Proof. exact decode_onehot. Qed.
 Print Assumptions C14_decode_onehot.
+
+(** The guard [wf_layout] is not only checked on the flat record of every real block: it holds of every
+    record [fb] that the model of the constructor ([create_flat], Front/CreateFlat.v: [_create] with
+    [Block.__init__], compared field by field with the real block on every run) builds from arguments [ci]
+    satisfying the executable condition [input_ok] (Front/CreateWf.v: window strides >= 1, a derived factor not
+    flagged [has_complex_window] has stride 1 and start 0, one exclusion count below the crossing size and one
+    positive sustain count per non-empty crossing, crossed factors of stride 1, crossings sharing a factor
+    have equal sustain counts).  So on such a record distinct choices have distinct variables, the variables
+    of the choices are exactly 1..variables_per_sample, and [decode_variable] inverts the encoding - with no
+    well-formedness hypothesis left. *)
+Theorem C14_layout_of_created :
+  forall (ci : create_input) (fb : flat),
+    input_ok ci = true -> create_flat ci = FOk fb ->
+    (forall f l t f' l' t',
+       applicable fb f l t -> applicable fb f' l' t' ->
+       encode_variable fb f l t = encode_variable fb f' l' t' -> f = f' /\ l = l' /\ t = t') /\
+    (forall f l t, applicable fb f l t ->
+       exists v, encode_variable fb f l t = Some v /\ 1 <= v <= variables_per_sample fb) /\
+    (forall v, 1 <= v <= variables_per_sample fb ->
+       exists f l t, applicable fb f l t /\ encode_variable fb f l t = Some v) /\
+    (forall f l t v, applicable fb f l t -> encode_variable fb f l t = Some v ->
+       decode_variable fb v = Some (f, l) /\ v < variables_per_sample fb + 1).
+Proof. exact layout_of_created. Qed.
+Print Assumptions C14_layout_of_created.
+
+(** [input_ok] is met by the arguments of
+    MultiCrossBlock([o, i, t], [[o, t], [i]], [MinimumTrials(7), AtMostKInARow(1, i)], mode=WEIGHT, alignment=PARALLEL_START)
+    (t a transition factor on o) and [create_flat] builds the 7-trial record of the real block from them *)
+Example C14_example_created :
+  input_ok ex_ok_input = true /\
+  exists fb, create_flat ex_ok_input = FOk fb /\ fl_act fb = [0; 1; 2] /\ fl_trials fb = 7 /\
+             variables_per_sample fb = 7 * 4 + 6 * 2 /\ encode_variable fb 2 1 3 = Some 32.
+Proof. split; [vm_compute; reflexivity|]. eexists. split; [vm_compute; reflexivity|]. repeat split. Qed.
 
 (** The hypotheses are met by the flat record of
     Repeat(CrossBlock([f, t], [f], [AtMostKInARow(1, (t, "same"))]), [MinimumTrials(5)])
